@@ -224,8 +224,20 @@ impl Archive {
         let mut blocks = HashSet::new();
         for band_id in band_ids {
             let band = Band::open(&archive, *band_id).await?;
-            let mut iter = band.index().try_iter_available_hunks().await?;
-            while let Some(hunk) = iter.next().await {
+            let mut index = band.index();
+            for hunk_number in index.hunks_available().await? {
+                // Every hunk that is present must be read successfully: quietly skipping one
+                // would make the blocks it references look unreferenced, and a gc would
+                // then delete data that this band still needs.
+                let hunk =
+                    index
+                        .read_hunk(hunk_number)
+                        .await?
+                        .ok_or_else(|| Error::InvalidMetadata {
+                            details: format!(
+                                "Index hunk {hunk_number} of band {band_id} disappeared while reading"
+                            ),
+                        })?;
                 for addr in hunk.into_iter().flat_map(|entry| entry.addrs) {
                     blocks.insert(addr.hash);
                     task.increment(1);
